@@ -42,7 +42,7 @@ impl C07 {
             // final-byte padding: 8 bit offsets x 256 fills, 64 streams per case; stored padding likewise
             n_pad: 64,
             // directed dynamic headers: run-length symbol x repeat count, HLIT/HDIST/HCLEN values
-            n_dir: 8,
+            n_dir: 10,
             n_hdr: scaled(tier.pick(2_000, 50_000), scale),
             n_gen: scaled(tier.pick(40_000, 1_000_000), scale),
             n_comp: scaled(tier.pick(8_000, 200_000), scale),
@@ -351,6 +351,61 @@ fn one_directed(ll: &[u8], rle_style: u32, hlit: usize, hdist: usize, hclen_extr
     }
 }
 
+/// one dynamic block of a few literals whose header declares `hlit` literal/length and `hdist` distance
+/// code lengths and gives the LAST declared symbol of each alphabet a code
+fn exotic_alphabet_stream(r: &mut Rng, hlit: usize, hdist: usize) -> Vec<u8> {
+    let a = b'a' + r.below(20) as u8;
+    let mut ll = vec![0u8; hlit];
+    ll[a as usize] = 1;
+    ll[256] = 2;
+    ll[hlit - 1] = 2;
+    let mut dl = vec![0u8; hdist];
+    dl[0] = 1;
+    dl[hdist - 1] = 1;
+    let mut all = ll.clone();
+    all.extend_from_slice(&dl);
+    let style = if r.chance(1, 2) { 0 } else { 2 };
+    let rle = gen::rle_lengths(r, &all, style);
+    let mut cu = vec![false; 19];
+    let mut cf = vec![0u32; 19];
+    for &(s, _) in &rle {
+        cu[s as usize] = true;
+        cf[s as usize] += 1;
+    }
+    let cl = gen::lengths_for_used(r, &cu, &cf, 7, true, 0);
+    let mut hclen = 19;
+    while hclen > 4 && cl[gen::CL_ORDER[hclen - 1]] == 0 {
+        hclen -= 1;
+    }
+    let mut w = BitW::new();
+    w.put(1, 1);
+    w.put(2, 2);
+    w.put((hlit - 257) as u32, 5);
+    w.put((hdist - 1) as u32, 5);
+    w.put((hclen - 4) as u32, 4);
+    for i in 0..hclen {
+        w.put(cl[gen::CL_ORDER[i]] as u32, 3);
+    }
+    let clc = gen::canon_codes(&cl);
+    for &(s, x) in &rle {
+        w.put_code(clc[s as usize], cl[s as usize] as u32);
+        match s {
+            16 => w.put(x as u32, 2),
+            17 => w.put(x as u32, 3),
+            18 => w.put(x as u32, 7),
+            _ => {}
+        }
+    }
+    let llc = gen::canon_codes(&ll);
+    let n = 1 + r.usize_below(12);
+    for _ in 0..n {
+        w.put_code(llc[a as usize], 1);
+    }
+    w.put_code(llc[256], 2);
+    w.pad(r.below(256) as u32);
+    w.out
+}
+
 fn directed_headers(k: u64, r: &mut Rng, ctx: &mut Ctx) {
     match k {
         // symbol 17 / 18 with every legal repeat count (zero runs of 3..=138 between two used literals)
@@ -404,6 +459,44 @@ fn directed_headers(k: u64, r: &mut Rng, ctx: &mut Ctx) {
             for extra in 0..=15usize {
                 one_directed(&ll, 0, 257, 2, extra, &format!("HCLEN slack +{}", extra), r, ctx);
                 ctx.count("hclen_values");
+            }
+        }
+        // headers declaring more symbols than RFC 1951 defines (HLIT 287/288, HDIST 31/32) with codes on the
+        // extra symbols: zlib rejects them, this parser accepts them, so they are in C07's domain ("all streams
+        // the parser accepts"); no ground truth, only the identity
+        7 => {
+            for (hlit, hdist) in [(287usize, 2usize), (288, 2), (258, 31), (258, 32), (288, 32), (286, 30)] {
+                for _ in 0..8 {
+                    let d = exotic_alphabet_stream(r, hlit, hdist);
+                    C07::judge(&d, None, &format!("header with HLIT={} HDIST={} and codes on the last symbols", hlit, hdist), false, ctx, false);
+                    ctx.count("exotic_alphabet_headers");
+                }
+            }
+        }
+        // consecutive blocks transmitting one code-length sequence with the HLIT/HDIST split moved by one
+        8 => {
+            for _ in 0..60 {
+                let (d, p) = crate::mon::c03::split_shift_stream(r);
+                if d.is_empty() {
+                    continue;
+                }
+                match crate::comp::zlib_inflate_raw(&d, p.len() + 64) {
+                    Some((zp, used)) if zp == p && used == d.len() => {
+                        C07::judge(
+                            &d,
+                            Some(Truth {
+                                plain: &p,
+                                consumed: d.len(),
+                            }),
+                            "blocks sharing one code-length sequence with the HLIT/HDIST split moved by one",
+                            false,
+                            ctx,
+                            false,
+                        );
+                        ctx.count("split_shift_streams");
+                    }
+                    _ => ctx.count("generator_rejected"),
+                }
             }
         }
         // combinations
